@@ -8,11 +8,12 @@ client's address is validated.
 * Counter theorems: `sent + credit = 3·received` is invariant (hence `sent ≤ 3·received`)
   PROVIDED every send is preceded by `size ≤ maxSendSize()`; under that precondition the
   `max(0, …)` clamp of `packetSent` is never active; without it the invariant fails.
-* `Conn.maybeSend` sizing AS IT IS violates the precondition (`full_false`): the datagram is
-  padded to 1200 bytes after the writer was sized to the credit. `holds_partial` excludes
-  exactly that region; `overshoot_exact` quantifies the excess.
+* `Conn.maybeSend` sizing satisfies the precondition (`holds`): since the repair of
+  `padded-initial-exceeds-credit` a datagram that needs padding to 1200 bytes is only built
+  when `maxSendSize()` covers it. The pre-repair witness is kept as an `example`: the repaired
+  code cannot perform its last send.
 * Monitor soundness: every wire trace the monitor accepts satisfies the property at every
-  prefix, up to the (separately reported) known-defect allowance.
+  prefix (no allowance).
 -/
 namespace NetVerif.Proofs.C27
 open NetVerif NetVerif.Model.AntiAmp
@@ -187,99 +188,65 @@ def CodeStatement : Prop :=
   ∀ ops : List COp, AllCPre St.server ops → NoValidateC ops → 3 * crecvTotal ops < unlimited →
     (crun St.server ops).sent ≤ 3 * (crun St.server ops).recvd
 
-/-- Witness: a 1250-byte client Initial, three padded 1200-byte replies (credit 150 left),
-then a PTO probe whose 150 bytes of packets are padded to 1200. -/
+/-- The pre-repair witness: a 1250-byte client Initial, three padded 1200-byte replies (credit 150
+left), then a PTO probe whose 150 bytes of packets are padded to 1200. -/
 def witness : List COp :=
   [.recv 1250, .csend 1200 true, .csend 1200 true, .csend 1200 true, .csend 150 true]
 
-/-- The unchanged code violates the statement: padding is applied after the writer was sized. -/
-theorem full_false : ¬ CodeStatement := by
-  intro h
-  have := h witness (by decide) (by decide) (by decide)
-  revert this
-  decide
+/-- A send of the code model is a send of the counter model of the size on the wire. -/
+def toOp : COp → Op
+  | .recv n => .recv n
+  | .csend k pad => .send (codeDatagramSize k pad)
+  | .validate => .validate
 
-private theorem crun_cons (s : St) (op : COp) (t : List COp) : crun s (op :: t) = crun (cstep s op) t := rfl
+private theorem cstep_eq (s : St) (op : COp) : cstep s op = step s (toOp op) := by cases op <;> rfl
 
-private theorem crecvTotal_nonneg (ops : List COp) : ∀ s, AllCPre s ops → 0 ≤ crecvTotal ops := by
+private theorem crun_eq (ops : List COp) : ∀ s, crun s ops = run s (ops.map toOp) := by
   induction ops with
-  | nil => intro _ _; simp [crecvTotal]
-  | cons op t ih =>
-    intro s hp
-    obtain ⟨hp1, hp2⟩ := hp
-    have := ih _ hp2
-    cases op <;> simp only [crecvTotal] <;> simp only [CPre] at hp1 <;> omega
+  | nil => intro _; rfl
+  | cons op t ih => intro s; simp only [crun, run, List.foldl, List.map] at *; rw [cstep_eq]; exact ih _
 
-/-- Exact accounting of the code's sends: every byte beyond `3·received` is an overshoot byte. -/
-theorem overshoot_exact (ops : List COp) : ∀ (s : St), s.credit ≠ unlimited → 0 ≤ s.credit →
-    AllCPre s ops → NoValidateC ops → s.credit + 3 * crecvTotal ops < unlimited →
-    (crun s ops).sent + (crun s ops).credit = s.sent + s.credit + 3 * crecvTotal ops + overshoot s ops ∧
-    (crun s ops).recvd = s.recvd + crecvTotal ops ∧ 0 ≤ overshoot s ops ∧ 0 ≤ (crun s ops).credit := by
+/-- The code's own gating implies the precondition of the counter theorem. -/
+theorem cpre_pre (s : St) (op : COp) (h : CPre s op) : Pre s (toOp op) := by
+  cases op with
+  | recv n => exact h
+  | validate => trivial
+  | csend k pad =>
+    simp only [CPre] at h
+    obtain ⟨_, hk, hm, hp⟩ := h
+    simp only [toOp, Pre, codeDatagramSize]
+    unfold paddedInitial at *
+    cases pad <;> simp at hp ⊢ <;> omega
+
+private theorem allCPre_allPre (ops : List COp) : ∀ s, AllCPre s ops → AllPre s (ops.map toOp) := by
   induction ops with
-  | nil => intro s _ h2 _ _ _; simp [crun, crecvTotal, overshoot]; exact h2
-  | cons op t ih =>
-    intro s h1 h2 hp hv hb
-    obtain ⟨hp1, hp2⟩ := hp
-    have hnn := crecvTotal_nonneg t _ hp2
-    cases op with
-    | validate => exact absurd hv (by simp [NoValidateC])
-    | recv n =>
-      simp only [CPre] at hp1
-      simp only [crecvTotal] at hb ⊢
-      have hc : (cstep s (.recv n)).credit = s.credit + 3 * n := by
-        simp [cstep, step, datagramReceived, h1]
-      have hs : (cstep s (.recv n)).sent = s.sent := rfl
-      have hr : (cstep s (.recv n)).recvd = s.recvd + n := rfl
-      have := ih (cstep s (.recv n)) (by rw [hc]; unfold unlimited at *; omega) (by rw [hc]; omega) hp2
-        (by simpa [NoValidateC] using hv) (by rw [hc]; omega)
-      rw [crun_cons]; rw [hc, hs, hr] at this
-      simp only [overshoot]
-      refine ⟨by omega, by omega, by omega, this.2.2.2⟩
-    | csend k pad =>
-      simp only [CPre, maxSendSize] at hp1
-      simp only [crecvTotal] at hb ⊢
-      have hc : (cstep s (.csend k pad)).credit = max 0 (s.credit - codeDatagramSize k pad) := by
-        simp [cstep, step, packetSent, h1]
-      have hs : (cstep s (.csend k pad)).sent = s.sent + codeDatagramSize k pad := rfl
-      have hr : (cstep s (.csend k pad)).recvd = s.recvd := rfl
-      have hsz : 0 < codeDatagramSize k pad := by unfold codeDatagramSize paddedInitial; split <;> omega
-      have := ih (cstep s (.csend k pad)) (by rw [hc]; unfold unlimited at *; omega) (by rw [hc]; omega) hp2
-        (by simpa [NoValidateC] using hv) (by rw [hc]; omega)
-      rw [crun_cons]; rw [hc, hs, hr] at this
-      simp only [overshoot, h1, ne_eq, not_false_eq_true, if_true]
-      refine ⟨by omega, by omega, by omega, this.2.2.2⟩
+  | nil => intro _ _; trivial
+  | cons op t ih => intro s h; exact ⟨cpre_pre s op h.1, by rw [← cstep_eq]; exact ih _ h.2⟩
 
-/-- Outside the defect region no send overshoots. -/
-theorem overshoot_zero (ops : List COp) : ∀ (s : St), AllCPre s ops → NoPadOvershoot s ops →
-    overshoot s ops = 0 := by
+private theorem noValidateC_map (ops : List COp) : NoValidateC ops → NoValidate (ops.map toOp) := by
   induction ops with
-  | nil => intro _ _ _; rfl
-  | cons op t ih =>
-    intro s hp hn
-    have := ih _ hp.2 hn.2
-    have hp1 := hp.1
-    have hn1 := hn.1
-    cases op with
-    | recv n => simp [overshoot, this]
-    | validate => simp [overshoot, this]
-    | csend k pad =>
-      simp only [CPre, maxSendSize] at hp1
-      simp only [padOvershoot, Bool.and_eq_false_iff, decide_eq_false_iff_not] at hn1
-      simp only [overshoot, this, codeDatagramSize]
-      unfold paddedInitial at *
-      split <;> rename_i hu
-      · cases pad <;> simp at hn1 ⊢ <;> omega
-      · rfl
+  | nil => intro _; trivial
+  | cons op t ih => intro h; cases op <;> simp_all [NoValidateC, NoValidate, toOp]
 
-/-- What does hold of the unchanged code: excluding padded sends made with less than 1200 bytes
-of credit, `sent ≤ 3·received`. This is also the proof that the minimal fix (do not send a
-datagram that needs padding unless `maxSendSize() ≥ paddedInitialDatagramSize`) suffices. -/
-theorem holds_partial (ops : List COp) (hp : AllCPre St.server ops) (hn : NoPadOvershoot St.server ops)
-    (hv : NoValidateC ops) (hb : 3 * crecvTotal ops < unlimited) :
-    (crun St.server ops).sent ≤ 3 * (crun St.server ops).recvd := by
-  have h := overshoot_exact ops St.server (by decide) (by decide) hp hv
-    (by show (0 : Int) + _ < _; omega)
-  rw [overshoot_zero ops _ hp hn] at h
+private theorem crecvTotal_map (ops : List COp) : recvTotal (ops.map toOp) = crecvTotal ops := by
+  induction ops with
+  | nil => rfl
+  | cons op t ih => cases op <;> simp [recvTotal, crecvTotal, toOp, ih]
+
+/-- C27 on the model of the send path, full strength: whatever `Conn.maybeSend`'s gating lets
+through before validation stays within three times the bytes received. -/
+theorem holds : CodeStatement := by
+  intro ops hp hv hb
+  rw [crun_eq]
+  exact sent_le_three_recv _ (allCPre_allPre ops _ hp) (noValidateC_map ops hv) (by rw [crecvTotal_map]; exact hb)
+
+/-- Exact accounting of the code's sends: no byte of credit is lost to the clamp. -/
+theorem code_exact (ops : List COp) (hp : AllCPre St.server ops) (hv : NoValidateC ops)
+    (hb : 3 * crecvTotal ops < unlimited) :
+    (crun St.server ops).sent + (crun St.server ops).credit = 3 * (crun St.server ops).recvd := by
+  rw [crun_eq]
+  have h := counter_exact _ St.server (by decide) (by decide) (allCPre_allPre ops _ hp) (noValidateC_map ops hv)
+    (by rw [crecvTotal_map]; show (0 : Int) + _ < _; omega)
   have e1 : St.server.sent = 0 := rfl
   have e2 : St.server.credit = 0 := rfl
   have e3 : St.server.recvd = 0 := rfl
@@ -307,16 +274,16 @@ def hsOf (a : Nat) : List Ev → Bool
   | _ :: t => hsOf a t
 
 /-- The monitor's invariant. -/
-def Inv (m : Mon) : Prop := ∀ a, m.validated a = false → m.sent a ≤ 3 * m.recvd a + m.over a
+def Inv (m : Mon) : Prop := ∀ a, m.validated a = false → m.sent a ≤ 3 * m.recvd a
 
 theorem inv_init : Inv Mon.init := by intro a _; simp [Mon.init]
 
 set_option linter.unusedSimpArgs false in
 private theorem mstep_facts (m m' : Mon) (e : Ev) (h : mstep m e = .ok m') (a : Nat) :
     m'.sent a = m.sent a + sentOf a [e] ∧ m'.recvd a = m.recvd a + recvOf a [e] ∧
-    m.over a ≤ m'.over a ∧ m'.hs a = (m.hs a || hsOf a [e]) ∧
+    m'.hs a = (m.hs a || hsOf a [e]) ∧
     (m'.validated a = true → m.validated a = true ∨ m'.hs a = true) ∧
-    (Inv m → m'.validated a = false → m'.sent a ≤ 3 * m'.recvd a + m'.over a) := by
+    (Inv m → m'.validated a = false → m'.sent a ≤ 3 * m'.recvd a) := by
   cases e with
   | recv b n r hs =>
     simp only [mstep] at h
@@ -326,22 +293,22 @@ private theorem mstep_facts (m m' : Mon) (e : Ev) (h : mstep m e = .ok m') (a : 
       cases r <;> simp only at h
       all_goals (repeat' split at h)
       all_goals (try cases h)
-      all_goals (simp only [bump, setB, sentOf, recvOf, hsOf, Inv, knownOvershoot, Bool.and_eq_true, decide_eq_true_eq] at *; grind)
+      all_goals (simp only [bump, setB, sentOf, recvOf, hsOf, Inv] at *; grind)
   | send b n byConn c k =>
     simp only [mstep] at h
     repeat' split at h
     all_goals (try cases h)
-    all_goals (simp only [bump, setB, sentOf, recvOf, hsOf, Inv, knownOvershoot, Bool.and_eq_true, decide_eq_true_eq] at *; grind)
+    all_goals (simp only [bump, setB, sentOf, recvOf, hsOf, Inv] at *; grind)
   | validated =>
     simp only [mstep] at h
     repeat' split at h
     all_goals (try cases h)
-    all_goals (simp only [bump, setB, sentOf, recvOf, hsOf, Inv, knownOvershoot, Bool.and_eq_true, decide_eq_true_eq] at *; grind)
+    all_goals (simp only [bump, setB, sentOf, recvOf, hsOf, Inv] at *; grind)
   | cred c =>
     simp only [mstep] at h
     repeat' split at h
     all_goals (try cases h)
-    all_goals (simp only [bump, setB, sentOf, recvOf, hsOf, Inv, knownOvershoot, Bool.and_eq_true, decide_eq_true_eq] at *; grind)
+    all_goals (simp only [bump, setB, sentOf, recvOf, hsOf, Inv] at *; grind)
 
 private theorem sentOf_cons (a : Nat) (e : Ev) (t : List Ev) : sentOf a (e :: t) = sentOf a [e] + sentOf a t := by
   cases e <;> simp [sentOf]
@@ -358,7 +325,7 @@ def Legit (m : Mon) : Prop := ∀ a, m.validated a = true → m.hs a = true
 /-- Everything the monitor's state says after an accepted trace, in terms of the trace itself. -/
 theorem mrun_facts (evs : List Ev) : ∀ m m', mrun m evs = .ok m' → Inv m → Legit m →
     Inv m' ∧ Legit m' ∧ ∀ a, m'.sent a = m.sent a + sentOf a evs ∧ m'.recvd a = m.recvd a + recvOf a evs ∧
-      m.over a ≤ m'.over a ∧ m'.hs a = (m.hs a || hsOf a evs) := by
+      m'.hs a = (m.hs a || hsOf a evs) := by
   induction evs with
   | nil =>
     intro m m' h hi hl
@@ -370,29 +337,28 @@ theorem mrun_facts (evs : List Ev) : ∀ m m', mrun m evs = .ok m' → Inv m →
     split at h
     · rename_i m1 h1
       have f := mstep_facts m m1 e h1
-      have hi1 : Inv m1 := fun a hv => (f a).2.2.2.2.2 hi hv
+      have hi1 : Inv m1 := fun a hv => (f a).2.2.2.2 hi hv
       have hl1 : Legit m1 := by
         intro a hv
-        rcases (f a).2.2.2.2.1 hv with h0 | h0
-        · rw [(f a).2.2.2.1, hl a h0]; rfl
+        rcases (f a).2.2.2.1 hv with h0 | h0
+        · rw [(f a).2.2.1, hl a h0]; rfl
         · exact h0
       obtain ⟨hi', hl', g⟩ := ih m1 m' h hi1 hl1
       refine ⟨hi', hl', fun a => ?_⟩
-      obtain ⟨g1, g2, g3, g4⟩ := g a
-      obtain ⟨f1, f2, f3, f4, _, _⟩ := f a
+      obtain ⟨g1, g2, g4⟩ := g a
+      obtain ⟨f1, f2, f4, _, _⟩ := f a
       rw [sentOf_cons, recvOf_cons, hsOf_cons]
-      refine ⟨by omega, by omega, by omega, ?_⟩
+      refine ⟨by omega, by omega, ?_⟩
       rw [g4, f4, Bool.or_assoc]
     · cases h
 
 /-- Soundness of the monitor (V-tie): in an accepted trace, every address that has not been validated
-has been sent at most three times what was received from it, plus the known-defect allowance the
-monitor reported separately (`over`, zero unless a padded Initial exceeded the credit). -/
+has been sent at most three times what was received from it. -/
 theorem monitor_sound (evs : List Ev) (m : Mon) (h : mrun Mon.init evs = .ok m) (a : Nat)
-    (hv : m.validated a = false) : sentOf a evs ≤ 3 * recvOf a evs + m.over a := by
+    (hv : m.validated a = false) : sentOf a evs ≤ 3 * recvOf a evs := by
   obtain ⟨hi, _, g⟩ := mrun_facts evs _ _ h inv_init (by intro a h; simp [Mon.init] at h)
   have := hi a hv
-  obtain ⟨g1, g2, _, _⟩ := g a
+  obtain ⟨g1, g2, _⟩ := g a
   simp only [Mon.init] at g1 g2
   omega
 
@@ -401,7 +367,7 @@ theorem validated_legit (evs : List Ev) (m : Mon) (h : mrun Mon.init evs = .ok m
     (hv : m.validated a = true) : hsOf a evs = true := by
   obtain ⟨_, hl, g⟩ := mrun_facts evs _ _ h inv_init (by intro a h; simp [Mon.init] at h)
   have := hl a hv
-  rw [(g a).2.2.2] at this
+  rw [(g a).2.2] at this
   simpa [Mon.init] using this
 
 /-- Acceptance is prefix-closed, so the property holds at every point of the trace. -/
@@ -417,22 +383,12 @@ theorem mrun_append (p q : List Ev) : ∀ m m', mrun m (p ++ q) = .ok m' →
       exact ih m1 m' h
     · cases h
 
-/-- The property itself on accepted traces: if the monitor accepts a trace and reports no known-defect
-overshoot for address `a`, then at EVERY prefix at which `a` is not yet validated,
-`Σ sent to a ≤ 3 · Σ received from a`. -/
-theorem accepted_trace_property (p q : List Ev) (m : Mon) (h : mrun Mon.init (p ++ q) = .ok m) (a : Nat)
-    (ho : m.over a = 0) :
+/-- The property itself on accepted traces: if the monitor accepts a trace, then at EVERY prefix at
+which address `a` is not yet validated, `Σ sent to a ≤ 3 · Σ received from a`. -/
+theorem accepted_trace_property (p q : List Ev) (m : Mon) (h : mrun Mon.init (p ++ q) = .ok m) (a : Nat) :
     ∃ mp, mrun Mon.init p = .ok mp ∧ (mp.validated a = false → sentOf a p ≤ 3 * recvOf a p) := by
-  obtain ⟨mp, h1, h2⟩ := mrun_append p q _ _ h
-  refine ⟨mp, h1, fun hv => ?_⟩
-  have s := monitor_sound p mp h1 a hv
-  obtain ⟨hi, hl, _⟩ := mrun_facts p _ _ h1 inv_init (by intro a h; simp [Mon.init] at h)
-  obtain ⟨_, _, g⟩ := mrun_facts q _ _ h2 hi hl
-  have g3 := (g a).2.2.1
-  obtain ⟨_, _, g0⟩ := mrun_facts p _ _ h1 inv_init (by intro a h; simp [Mon.init] at h)
-  have g03 := (g0 a).2.2.1
-  simp only [Mon.init] at g03
-  omega
+  obtain ⟨mp, h1, _⟩ := mrun_append p q _ _ h
+  exact ⟨mp, h1, fun hv => monitor_sound p mp h1 a hv⟩
 
 /-- The monitor's credit bookkeeping is the counter model: an accepted connection send within the
 precondition leaves exactly `credit - n`. -/
@@ -465,19 +421,23 @@ instance : (s : St) → (ops : List COp) → Decidable (NoPadOvershoot s ops)
 
 example : AllPre St.server [.recv 1250, .send 1200, .send 1200, .send 1200, .send 150] ∧
     NoValidate [.recv 1250, .send 1200, .send 1200, .send 1200, .send 150] := by decide
-example : AllCPre St.server witness ∧ NoValidateC witness ∧ 3 * crecvTotal witness < unlimited := by decide
-example : AllCPre St.server [.recv 1200, .csend 1200 true, .csend 1200 true, .csend 1200 true] ∧
-    NoPadOvershoot St.server [.recv 1200, .csend 1200 true, .csend 1200 true, .csend 1200 true] := by
+/-- The pre-repair witness is no longer a behaviour of the code: its last send (150 bytes of packets
+padded to 1200 with 150 bytes of credit) fails the gating; the history up to there satisfies the bound. -/
+example : ¬ AllCPre St.server witness := by decide
+example : AllCPre St.server witness.dropLast ∧ NoValidateC witness.dropLast ∧
+    (crun St.server witness.dropLast).sent ≤ 3 * (crun St.server witness.dropLast).recvd := by decide
+example : AllCPre St.server [.recv 1200, .csend 1200 true, .csend 1200 true, .csend 1200 true] := by decide
+/-- With 150 bytes of credit left the repaired code may still send an unpadded datagram. -/
+example : AllCPre St.server [.recv 1250, .csend 1200 true, .csend 1200 true, .csend 1200 true, .csend 150 false] := by
   decide
-/-- The witness trace of the real code (corpus/C27) is accepted with a non-zero allowance. -/
+/-- The repaired traces of corpus/C27 are accepted. -/
 example : (match mrun Mon.init [.recv 0 1250 .new false, .send 0 1200 true 2550 500, .send 0 1200 true 1350 500,
-    .send 0 1200 true 150 500, .send 0 1200 true 0 150] with | .ok m => m.over 0 | .error _ => -1) = 1050 := by decide
+    .send 0 1200 true 150 500, .send 0 140 true 10 140] with | .ok _ => "ok" | .error e => e) = "ok" := by decide
+/-- The pre-repair trace of the real server is rejected: a padded datagram beyond the credit. -/
+example : (match mrun Mon.init [.recv 0 1250 .new false, .send 0 1200 true 2550 500, .send 0 1200 true 1350 500,
+    .send 0 1200 true 150 500, .send 0 1200 true 0 150] with | .ok _ => "ok" | .error e => e) = "send-exceeds-credit" := by
+  decide
 example : (match mrun Mon.init [.recv 0 1200 .new false, .send 0 1200 true 2400 700, .send 0 1201 true 1199 1201] with
     | .ok _ => "ok" | .error e => e) = "send-exceeds-credit" := by decide
-
-/-- A full 1200-byte datagram of packets (nothing padded) with less credit is NOT excused. -/
-example : (match mrun Mon.init [.recv 0 1250 .new false, .send 0 1200 true 2550 500, .send 0 1200 true 1350 500,
-    .send 0 1200 true 150 500, .send 0 1200 true 0 1200] with | .ok _ => "ok" | .error e => e) = "send-exceeds-credit" := by
-  decide
 
 end NetVerif.Proofs.C27
